@@ -1,6 +1,98 @@
-"""output-side models: numpy.savetxt, matplotlib Axes, pandas (ghost output events)"""
+"""output-side models: numpy.savetxt, matplotlib Axes, pandas (ghost output events on cx.events)"""
+from fractions import Fraction
+
+from ..engine import terms as T
 from ..engine.vc import Unsupported
+from ..engine.values import Sym, SArr, SSeq, SObj, Opaque, Builtin, PyRaise, wrap, term_of, is_scalar, StrSym
+
+
+class AxesObj(Opaque):
+    type_name = "Axes"
+
+    def __init__(self, name="ax"):
+        self.name = name
+        self.events = []
+
+    def call_method(self, itp, name, args, kwargs):
+        self.events.append((name, list(args), dict(kwargs)))
+        itp.cx.trusted.add("matplotlib Axes methods draw exactly the data they are given")
+        return None
+
+    def getattr_(self, itp, name):
+        raise Unsupported("Axes attribute " + name)
+
+
+class SeriesObj(Opaque):
+    type_name = "Series"
+
+    def __init__(self, frame, col, converted=None):
+        self.frame, self.col, self.converted = frame, col, converted
+
+
+class ColumnsObj(Opaque):
+    type_name = "Index"
+
+    def __init__(self, frame):
+        self.frame = frame
+
+    def getitem(self, itp, sel):
+        return ("column", term_of(sel) if not isinstance(sel, int) else sel)
+
+
+class FrameObj(Opaque):
+    type_name = "DataFrame"
+
+    def __init__(self, path, kwargs):
+        self.path, self.kwargs = path, kwargs
+        self.popped = []
+        self.index = None
+
+    def getattr_(self, itp, name):
+        if name == "columns":
+            return ColumnsObj(self)
+        if name == "index":
+            return self.index
+        raise Unsupported("DataFrame." + name)
+
+    def setattr_(self, itp, name, value):
+        if name == "index":
+            self.index = value
+            return
+        raise Unsupported("DataFrame set " + name)
+
+    def call_method(self, itp, name, args, kwargs):
+        if name == "pop":
+            self.popped.append(args[0])
+            return SeriesObj(self, args[0])
+        raise Unsupported("DataFrame." + name)
 
 
 def install(reg):
-    pass
+    def savetxt(itp, a, k):
+        itp.cx.event("savetxt", a, k)
+        itp.cx.ghost.setdefault("savetxt", []).append((list(a), dict(k)))
+        itp.cx.trusted.add("numpy.savetxt(path, X, fmt, delimiter, header, comments) writes the header line followed by one formatted row per row of X")
+        return None
+    reg.register("numpy.savetxt", Builtin("numpy.savetxt", savetxt))
+
+    def subplots(itp, a, k):
+        if a or k:
+            raise Unsupported("plt.subplots with arguments")
+        ax = AxesObj("new")
+        itp.cx.ghost.setdefault("new_axes", []).append(ax)
+        return ("figure", ax)
+    reg.register("matplotlib.pyplot.subplots", Builtin("plt.subplots", subplots))
+
+    def read_csv(itp, a, k):
+        f = FrameObj(a[0], dict(k))
+        itp.cx.ghost.setdefault("read_csv", []).append(f)
+        itp.cx.trusted.add("pandas.read_csv returns every data row of the file, in order")
+        return f
+    reg.register("pandas.read_csv", Builtin("pandas.read_csv", read_csv))
+
+    def to_datetime(itp, a, k):
+        s = a[0]
+        if not isinstance(s, SeriesObj):
+            raise Unsupported("to_datetime of non-series")
+        return SeriesObj(s.frame, s.col, converted=dict(k))
+    reg.register("pandas.to_datetime", Builtin("pandas.to_datetime", to_datetime))
